@@ -59,7 +59,7 @@ RULE = ("model-compared histories (612 quick / 12 012 thorough): 1-3 owners x 1-
         "observable values bool / float (non-dyadic, -0.0) / int > 2^53 and < -2^63 / None / str / tuple / Fraction / Decimal, "
         "functions that build tuples, test truthiness and raise a user exception (`req`), owners whose truth value is False "
         "(__len__ 0 / __bool__ False), two distinct owners that compare EQUAL (value-based __eq__/__hash__; HEAD conflates them in "
-        "Computed.parents: recorded under cand/, reported as a finding), user exceptions of eight types incl. StopIteration, "
+        "Computed.parents: known finding C17/Computed/equal-owners-conflated), user exceptions of eight types incl. StopIteration, "
         "AttributeError, TypeError and GeneratorExit, also raised while the Computed is being installed.  Targeted enumerator (thorough / on a break): all op sequences of length <= 4 (5) over "
         "{set x 0|1, set y 0|1, read c0, read c1} on six shapes, with and without None results, and all writer action lists "
         "of length <= 3.  non-trivial = at least one computed re-evaluated after installation and at least one read served from "
@@ -95,6 +95,10 @@ ASSUMPTIONS = [
     "relative to the healthy set survives collections (C17_healthy_invariant_survives_collections); the evaluation chain in states "
     "with dead owners is not proved; a Computed that read a collected owner stays stale: known finding "
     "C17/Computed/stale-after-parent-collected (refutation witness C17_never_stale_refuted)",
+    "second known finding C17/Computed/equal-owners-conflated: Computed.parents and PROCESSING_SIGNALS key owners by ==/hash, so two "
+    "distinct owners that compare equal are conflated (stale value / re-run on every dirty check / AttributeError in the comparison "
+    "loop); oracle only - the model identifies owners by their index and cannot express two equal ones without re-keying the parents "
+    "dictionary and its invariants",
     "observations recorded, not judged: a rejected installation leaves the Computed installed and later reads return None "
     "(C17_rejected_installation_then_read_returns_none); after a user exception inside a function later reads serve the cached value "
     "instead of raising (cand/ key; functions that raise are outside the quantifier).  Judged since fix C17-5 is committed: an owner "
@@ -281,6 +285,16 @@ def _het_case(rng):
     eqown = []
     if nown >= 2 and rng.random() < 0.15:
         eqown = [0, 1]           # two distinct owners that compare EQUAL (value-based __eq__/__hash__)
+        ops = [op for op in ops if op[0] != "kill"]      # keep the other known finding / observations out of these histories
+        falsy = []
+
+        def strip(e):
+            if e[0] == "req":
+                return strip(e[1])
+            if e[0] in ("+", "if"):
+                return [e[0]] + [strip(x) for x in e[1:]]
+            return e
+        comps = [{"owner": c["owner"], "expr": strip(c["expr"])} for c in comps]
     return {"het": True, "init": init, "comps": comps, "ops": ops, "falsy": falsy, "eqown": eqown,
             "layout": "own" if eqown else rng.choice(["own", "shared", "deep"]),
             "csub": rng.choice(["stock", "eq", "call"]), "osub": rng.random() < 0.3, "fwrap": rng.random() < 0.3}
@@ -582,15 +596,45 @@ def _cur(env, src):
 
 KEY_FALSY = "C17/Computed.__call__/falsy-owner-treated-as-collected"   # repaired (fix C17-5): a verdict if it returns
 CAND_EXC = "cand/C17/Computed.__call__/exception-in-function-then-cached-value-served"
-CAND_EQOWN = "cand/C17/Computed.parents/equal-owners-conflated"   # HEAD finding (wave 10), reported, not judged
+KEY_EQOWN = "C17/Computed/equal-owners-conflated"   # KNOWN FINDING (wave 10): owners keyed by ==/hash in Computed.parents
+
+
+def _owners_in(env, e, j, out):
+    t = e[0]
+    if t == "o":
+        out.add(e[1])
+    elif t == "k":
+        if e[1] < j:
+            out.add(env.cowner[e[1]])        # a Computable is a parent keyed by ITS owner
+        if e[1] < j and e[1] not in env._cone_seen:
+            env._cone_seen.add(e[1])
+            _owners_in(env, env.exprs[e[1]], e[1], out)
+    elif t in ("+", "if", "req"):
+        for x in e[1:]:
+            if isinstance(x, list):
+                _owners_in(env, x, j, out)
+
+
+def _cone_has_equal_owners(env):
+    """does the Computed being read at top level (or, through it, any Computable below) have parents - observables or
+    Computables - on BOTH equal owners?"""
+    j = getattr(env, "top_j", None)
+    if j is None:
+        return False
+    env._cone_seen = set()
+    out = set()
+    _owners_in(env, env.exprs[j], j, out)
+    return all(o in out for o in env.eqown)
 
 
 def _fail(env, key, what):
     """symptoms that follow from a user-code exception inside a function earlier in the history are an OBSERVATION
     (functions that raise are outside C17's quantifier) recorded under a cand/ key the framework does not report;
     a re-run caused by an owner whose truth value is False is the repaired defect C17-5: a verdict"""
-    if getattr(env, "eqown", None) and key.startswith("C17/"):
-        key = CAND_EQOWN
+    if getattr(env, "eqown", None) and key.startswith("C17/") and _cone_has_equal_owners(env):
+        # every spelling of the known finding (stale value, re-run on every dirty check, AttributeError from the comparison
+        # loop): only in a history with two equal-but-distinct owners, and only for a Computed whose cone reads BOTH
+        key = KEY_EQOWN
     elif getattr(env, "exc_seen", False) and key.startswith("C17/"):
         key = CAND_EXC
     elif getattr(env, "falsy", None) and "spurious-recompute" in key:
@@ -871,6 +915,7 @@ def run_impl(case):
     obs = []
     for i, op in enumerate(case["ops"]):
         env.opi = i
+        env.top_j = None
         kind = op[0]
         if not setup_ok:
             obs.append([-1, 99])
@@ -890,6 +935,7 @@ def run_impl(case):
                 if env.cowner[j] not in env.alive:
                     obs.append([-2])
                     continue
+                env.top_j = j
                 if env.het:
                     obs.append(_het_read(env, j))
                     continue
@@ -1148,8 +1194,8 @@ LEVEL_NOTE = ("Theorems are about the model; the tie to the code is T1 (translat
               "Computed.__call__ in states with dead owners (histories continuing after a collection), hence the _partial names.  "
               "Oracle only: non-int values, user exceptions in functions, falsy owners, class layouts.  Defects: 5 repaired "
               "(cached parent value registered; read set cleared inside an evaluation; parents of earlier evaluations kept; nested "
-              "comparison registers on the enclosing Computed; falsy owner taken for collected), 1 known finding (stale after a parent "
-              "owner is collected), 2 observations (rejected installation stays installed; cached value served after a user exception).  Trusted: Coq kernel, translator + dictionary, driver/observer, CPython "
+              "comparison registers on the enclosing Computed; falsy owner taken for collected), 2 known findings (stale after a parent "
+              "owner is collected; equal-but-distinct owners conflated), 2 observations (rejected installation stays installed; cached value served after a user exception).  Trusted: Coq kernel, translator + dictionary, driver/observer, CPython "
               "dict/weakref/gc semantics as modelled.  No axioms.")
 TECHNIQUE = ("Coq proof (fuel-indexed evaluation, invariant over all histories, second induction for run counts, healthy-set invariant "
              "for collections; closed under the global context) + code-level T1 (statement translator, bridge lemmas, normalised "
